@@ -18,6 +18,8 @@ BASES = ["Idle", "Pending", "Running", "WaitingForWake", "WaitingForUnpark", "Wa
 def strip_comments(src):
     src = re.sub(r'//[^\n]*', '', src)
     src = re.sub(r'/\*.*?\*/', '', src, flags=re.S)
+    # single-line statements that exist only in verification builds are not part of the code under study
+    src = re.sub(r'[ \t]*#\[cfg\(desync_verif\)\][ \t]*\n[ \t]*crate::verif::log\([^\n]*\);[ \t]*\n', '', src)
     return src
 
 def match_brace(s, i):
